@@ -4,6 +4,7 @@ import (
 	"bytes"
 	"fmt"
 	"os"
+	"path/filepath"
 	"testing"
 
 	"github.com/libp2p/go-libp2p/core/crypto"
@@ -86,6 +87,10 @@ type RTScenario struct {
 	Wrong    []WrongSpec `json:"wrong"`
 	Pass2    PassSpec    `json:"pass2"` // pass-phrase of the re-imported copy
 	Msg      []byte      `json:"msg"`
+	// Over: what already sits at the import destination (import is the documented way to replace a
+	// key file): "" nothing | padded (the original key file, re-indented and padded, i.e. a longer
+	// valid file) | junk (longer arbitrary bytes) | short (a few bytes)
+	Over string `json:"over,omitempty"`
 }
 
 func genPass(t *rapid.T, label string, minLen int) PassSpec {
@@ -155,6 +160,7 @@ func genRT(t *rapid.T) RTScenario {
 		sc.Wrong = append(sc.Wrong, genWrong(t))
 	}
 	sc.Pass2 = genPass(t, "pass2", 0)
+	sc.Over = rapid.SampledFrom([]string{"", "", "padded", "junk", "short"}).Draw(t, "over")
 	sc.Msg = rapid.SliceOfN(rapid.Byte(), 0, 64).Draw(t, "msg")
 	return sc
 }
@@ -269,6 +275,23 @@ func runRT(sc RTScenario) world.Verdict {
 	// 5. export followed by import preserves the key
 	pass2 := sc.Pass2.materialize()
 	labels = append(labels, "re"+passClass(pass2))
+	if sc.Over != "" {
+		var prior []byte
+		switch sc.Over {
+		case "padded":
+			orig, _ := os.ReadFile(filepath.Join(dirA, keyFileName))
+			prior = append(bytes.ReplaceAll(orig, []byte(","), []byte(",\n    ")), bytes.Repeat([]byte("\n   "), 40)...)
+		case "junk":
+			prior = bytes.Repeat([]byte("old key file contents "), 200)
+		case "short":
+			prior = []byte("{}")
+		}
+		_ = os.MkdirAll(dirB, 0o700)
+		if err := os.WriteFile(filepath.Join(dirB, keyFileName), prior, 0o600); err != nil {
+			return world.Verdict{Excluded: true}
+		}
+		labels = append(labels, "import-over:"+sc.Over)
+	}
 	var ierr error
 	io := guarded(func(*outcome) { ierr = filesigner.ImportPrivateKey(dirB, cp(ex.raw), cp(pass2)) })
 	if io.pan != "" {
